@@ -30,6 +30,12 @@ tie    : (a) harness/c09.cpp: compute_laplacian and compute_diffusion_matrix cal
              skipped; own scan of the solver front-ends for writes to `skip` / `target_dimension` (the table's ESkip /
              ETarget must stay the strategy constant / the request); documented defaults left unset; huge magnitudes;
              calls from inside an application's OpenMP region and four OpenMP environments.
+         (e) wave 4: the ORDER of a neighbour list is free (Lap_neighbour_order_free, Lap_compute_laplacian_order_free);
+             the routine-level streams hand the lists over nearest first / farthest first / shuffled / in nth_element-like
+             order, and the exp oracle may answer exactly 0.0 (mode 3: the 2^-12 grid without its floor; tables with
+             zeros, denormals, values over 40 binades; libm exp with a kernel so narrow that the weights of the farthest
+             listed neighbours underflow while the nearer ones still connect all samples).  The public-API stream
+             sweeps the three neighbour searches (Brute, VpTree, CoverTree) on generic points and on such narrow kernels.
 search : when a proof / the table / the correspondence no longer checks, or ONE of the two harnesses no longer
          builds against the tree: the generators of the other harness at the thorough budget plus selector-boundary
          requests (N = d+1, d+2) for both methods.
@@ -86,7 +92,11 @@ TRUSTED = [
     "-UNDEBUG (Eigen's own assertions)",
     "harness/c09_api.cpp: independent dense references (own L/D from the returned lists, own diffusion matrix, Eigen "
     "solvers)",
-    "IEEE rounding is not modelled: the exact stream is constructed so that no operation rounds",
+    "IEEE rounding is not modelled: the exact stream is constructed so that no operation rounds (sums of multiples of "
+    "2^-12, of denormals = multiples of 2^-1074, of dyadic values within 40 binades); an UNDERFLOWED weight is the "
+    "oracle value 0.0 (or a denormal), shared by both sides like every other oracle value",
+    "generator-side numerics of the narrow-kernel inputs (own k-NN, spanning-tree bottleneck, Jacobi estimate of the "
+    "second eigenvalue) only choose inputs; the verdicts never use them",
 ]
 
 ASSUMPTIONS = [
@@ -1474,6 +1484,16 @@ def eval_lap(ctx, mexe, cases, impl, st):
                               % (what, float(iv), float(mv), rel, TOL_ENTRY))
         if n >= 3 and len(c["nbrs"][0]) >= 1:
             st.nontrivial.add(case_hash(c))
+        # input class of wave 4: some sample lists a neighbour of weight exactly 0 BEFORE one of non-zero weight
+        try:
+            k0 = len(c["nbrs"][0])
+            Hm = r["H"][2]
+            zero_first = any(any(Hm[a * n + l[p]] == 0.0 and any(Hm[a * n + l[q]] != 0.0 for q in range(p + 1, k0))
+                                 for p in range(k0)) for a, l in enumerate(c["nbrs"][:n]) if len(l) >= k0)
+            if zero_first:
+                st.count("LAP_zero_weight_listed_before_a_nonzero_one_mode%d" % c["mode"])
+        except (IndexError, KeyError, TypeError):
+            pass
         # oracle contract on the observed calls (exact modes): every argument is -(d^2)/w of a used pair
         if c["mode"] in (1, 2, 3) and r.get("calls") is not None:
             k = len(c["nbrs"][0])
@@ -2471,7 +2491,12 @@ def run(ctx):
              "relative comparison) and through the public API (exact eigenvalue ranks); nearly decoupled Markov chains "
              "with eigenvalues 1 - 1e-5 .. 1 - 1e-12; documented defaults left unset; distances / widths of order 1e150 "
              ".. 1e300 and 1e-300; every public-API case also called from inside an OpenMP parallel region and under one "
-             "of four OpenMP environments incl. OMP_THREAD_LIMIT < OMP_NUM_THREADS and nested parallelism).  "
+             "of four OpenMP environments incl. OMP_THREAD_LIMIT < OMP_NUM_THREADS and nested parallelism; wave 4: "
+             "neighbour lists in nearest-first / farthest-first / shuffled / nth_element-like order at routine level, "
+             "exp oracle answering exactly 0.0 / denormals / values over 40 binades (exact stream), kernels so narrow "
+             "that the farthest listed neighbours' weights underflow while the rest connect all samples (jittered "
+             "line / grid / arc, weakest connecting weight exp(-5) .. exp(-300), at routine level down to exp(-744)), "
+             "the three neighbour searches Brute / VpTree / CoverTree through the public API).  "
              "evaluations = cases whose "
              "implementation output was compared with model/spec; non-trivial = N >= 3 and, for the methods, all "
              "conditioning guards passed (connected graph, deterministic neighbour search, degree ratio <= 1e4, "
